@@ -1366,6 +1366,14 @@ func (fr *Frame) instr(ins ssa.Instruction, st *State) {
 		st.reach = "false"
 	case *ssa.MakeClosure:
 		f := x.Fn.(*ssa.Function)
+		if strings.Contains(f.Synthetic, "bound method wrapper") && len(x.Bindings) == 1 {
+			// a method value x.M with a pointer receiver: the receiver is captured now and dereferenced when
+			// the value is called; capturing nil is a latent nil dereference (safety obligation here)
+			if _, isPtr := types.Unalias(x.Bindings[0].Type()).Underlying().(*types.Pointer); isPtr {
+				recv := fr.term(x.Bindings[0], st)
+				fr.nopanic(st, "boundnil", x.Pos(), not(app("=", recv.S, "0")), "method value bound to a nil receiver: the call will dereference it")
+			}
+		}
 		n := c.freshConst(fr.tag+x.Name(), SInt)
 		c.emit(fmt.Sprintf("(assert (not (= %s 0)))", n))
 		fr.vals[x] = Val{T: Term{n, SInt, x.Type()}, Fn: f, Clo: x}
